@@ -154,6 +154,12 @@ func (f *scionFront) loop() {
 				f.mu.Unlock()
 				continue
 			}
+			switch w.Kind {
+			case "src-type": // same address bytes, but not an IP host address: a service address or an unassigned 4-byte type
+				raw[9] = raw[9]&0xf0 | []byte{0x4, 0x8, 0xc}[w.Arg%3]
+			case "dst-type":
+				raw[9] = raw[9]&0x0f | []byte{0x4, 0x8, 0xc}[w.Arg%3]<<4
+			}
 			f.down.WriteToUDP(raw, from)
 			f.mu.Lock()
 			f.sent = append(f.sent, w.Kind)
@@ -171,7 +177,7 @@ var (
 	frontErr  error
 )
 
-var recSC = ev.New("c05/acceptance-scion", "rapid: a real SCIONClient (interleaved mode on/off, 0..2 clean warm-up exchanges) measures over a SCION path whose next hop is a harness front; the NTP server model answers with a script of 1..3 payloads as in c05/acceptance (genuine, arbitrary bytes, single-field header mutations, forged interleaved origins; each for its own clock offset >= 2 s apart), and the front wraps the i-th payload into a SCION reply that is genuine, a harmless variation (hop-by-hop extension, traffic class, flow id, unknown end-to-end option) or wrong in exactly one address part (source ISD-AS bit, source host, destination ISD-AS bit, destination host, addresses not exchanged) or an SCMP message. Oracle: success => the offset lies in the envelope of exactly one delivered datagram whose wrapper and header are acceptable by the statement (from the queried ISD-AS and host, addressed to the client, origin echoed, server mode, NTPv3/4, leap known, stratum 1..15, transmit not before receive); no acceptable datagram => error; a lone genuine reply => success. One evaluation = one scripted exchange. Non-trivial: >= 1 non-acceptable datagram delivered; distinct by script description")
+var recSC = ev.New("c05/acceptance-scion", "rapid: a real SCIONClient (interleaved mode on/off, 0..2 clean warm-up exchanges) measures over a SCION path whose next hop is a harness front; the NTP server model answers with a script of 1..3 payloads as in c05/acceptance (genuine, arbitrary bytes, single-field header mutations, forged interleaved origins; each for its own clock offset >= 2 s apart), and the front wraps the i-th payload into a SCION reply that is genuine, a harmless variation (hop-by-hop extension, traffic class, flow id, unknown end-to-end option) or wrong in exactly one address part (source ISD-AS bit, source host, destination ISD-AS bit, destination host, source or destination address type changed to a service / unassigned type with the same bytes, addresses not exchanged) or an SCMP message. Oracle: success => the offset lies in the envelope of exactly one delivered datagram whose wrapper and header are acceptable by the statement (from the queried ISD-AS and host, addressed to the client, origin echoed, server mode, NTPv3/4, leap known, stratum 1..15, transmit not before receive); no acceptable datagram => error; a lone genuine reply => success. One evaluation = one scripted exchange. Non-trivial: >= 1 non-acceptable datagram delivered; distinct by script description")
 
 func TestPropAcceptanceSCION(t *testing.T) {
 	frontOnce.Do(func() {
@@ -189,6 +195,8 @@ func TestPropAcceptanceSCION(t *testing.T) {
 		vt.Inconclusive(t, "cannot start SCION front: %v", frontErr)
 	}
 	lIA, rIA := addr.MustIAFrom(1, 0xff0000000110), addr.MustIAFrom(2, 0xff0000000220)
+	noRequest, judged = 0, 0
+	defer checkStalls(t)
 	vt.Check(t, 300, 3000, func(t *rapid.T) {
 		c := &client.SCIONClient{Log: slog.New(slog.NewTextHandler(io.Discard, nil)), InterleavedMode: rapid.Bool().Draw(t, "interleaved")}
 		ps := wire.PathSpec{Kind: rapid.SampledFrom([]string{"scion", "scion", "empty"}).Draw(t, "pathkind"), SegLens: []int{2, 2}, ConsDir: []bool{true, false}, Seed: 99}
@@ -245,7 +253,7 @@ func TestPropAcceptanceSCION(t *testing.T) {
 		for i := 0; i < nd; i++ {
 			plan = append(plan, drawn{mut: rapid.SampledFrom(headerMutations).Draw(t, "mutation"), theta: nextTheta()})
 			wraps = append(wraps, wrapSpec{
-				Kind: rapid.SampledFrom([]string{"genuine", "genuine", "genuine", "hbh", "traffic-class", "flow-id", "unknown-e2e-option", "src-ia", "src-host", "dst-ia", "dst-host", "swapped", "scmp", "src-ia", "src-host"}).Draw(t, "wrap"),
+				Kind: rapid.SampledFrom([]string{"genuine", "genuine", "genuine", "hbh", "traffic-class", "flow-id", "unknown-e2e-option", "src-ia", "src-host", "dst-ia", "dst-host", "swapped", "scmp", "src-ia", "src-host", "src-type", "dst-type"}).Draw(t, "wrap"),
 				Arg:  rapid.Uint64Range(0, 1<<20).Draw(t, "wraparg"),
 			})
 		}
@@ -279,8 +287,13 @@ func TestPropAcceptanceSCION(t *testing.T) {
 		off, err, win := call(80 * time.Millisecond)
 		srv.Take()
 		if exch == nil {
-			vt.Inconclusive(t, "the model saw no request (err %v)", err)
+			// the request did not reach the model within the scripted deadline (a stall of this harness under load):
+			// nothing to judge in this case; the count is checked at the end of the test
+			noRequest++
+			recSC.Label("no-request-seen-within-deadline")
+			return
 		}
+		judged++
 		front.mu.Lock()
 		sent := append([]string(nil), front.sent...)
 		front.mu.Unlock()
